@@ -269,7 +269,6 @@ package parse
 //@   ensures result == node_ns(self)
 //@ func (Node).ChildrenByType
 //@   params t
-//@   ensures result == node_children_of(self, t)
 //@   ensures len(result) == node_nchildren_of(self, t) && forall(i, 0, len(result), result[i] == node_child_of(self, t, i) && result[i] != nil)
 //@   ensures isfresh(result)
 //@ func (Node).Clone
@@ -427,19 +426,20 @@ package parse
 
 // Prefix resolution: the empty prefix and the module's own prefix denote the module of definition; any other
 // prefix must be the prefix of one of ITS imports; an unknown prefix is an error (unless unknown modules are skipped).
-//@ define imports(n) = typed(node_children_of(n, NodeImport), []Node)
+//@ define nimports(n) = node_nchildren_of(n, NodeImport)
+//@ define imp(n, k) = node_child_of(n, NodeImport, k)
 //@ func getPfxName
 //@   requires n != nil
-//@   ensures iff(result1, exists(k, 0, len(imports(n)), node_prefix(imports(n)[k]) == pfx))
-//@   loop 0 invariant forall(k, 0, loopidx+1, node_prefix(imports(n)[k]) != pfx)
+//@   ensures iff(result1, exists(k, 0, nimports(n), node_prefix(imp(n, k)) == pfx))
+//@   loop 0 invariant forall(k, 0, loopidx+1, node_prefix(imp(n, k)) != pfx)
 //@ func (*node).GetModuleByPrefix
 //@   requires n != nil && n.tree != nil && n.tree.Root != nil
 //@   modifies mapof(modules)
 //@   ensures implies(pfx == "" || old(node_prefix(n.tree.Root)) == pfx, result0 == old(n.tree.Root) && result1 == nil)
 //@   ensures implies(pfx != "" && old(node_prefix(n.tree.Root)) != pfx && !skipUnknown &&
-//@           !old(exists(k, 0, len(imports(n.tree.Root)), node_prefix(imports(n.tree.Root)[k]) == pfx)), result1 != nil)
+//@           !old(exists(k, 0, nimports(n.tree.Root), node_prefix(imp(n.tree.Root, k)) == pfx)), result1 != nil)
 //@   ensures implies(pfx != "" && old(node_prefix(n.tree.Root)) != pfx && skipUnknown &&
-//@           !old(exists(k, 0, len(imports(n.tree.Root)), node_prefix(imports(n.tree.Root)[k]) == pfx)), result0 == nil && result1 == nil)
+//@           !old(exists(k, 0, nimports(n.tree.Root), node_prefix(imp(n.tree.Root, k)) == pfx)), result0 == nil && result1 == nil)
 
 // The namespace of a node is that of the module that USES it (grouping copies), the belongs-to module's for a
 // submodule; a prefix inside an expression is mapped through the imports of the module of DEFINITION.
@@ -457,7 +457,7 @@ package parse
 //@   modifies mapof(modules)
 //@   ensures implies(prefix != "" && old(node_prefix(n.tree.Root) == prefix) && node_root(old(n.tree.Root)) != nil, result1 == nil && result0 == node_ns(node_root(old(n.tree.Root))))
 //@   ensures implies(prefix != "" && old(node_prefix(n.tree.Root) != prefix) &&
-//@           !old(exists(k, 0, len(imports(n.tree.Root)), node_prefix(imports(n.tree.Root)[k]) == prefix)), result1 != nil)
+//@           !old(exists(k, 0, nimports(n.tree.Root), node_prefix(imp(n.tree.Root, k)) == prefix)), result1 != nil)
 //@   ensures implies(prefix == "" && node_usesroot(iface(n)) != nil && node_type(node_usesroot(iface(n))) != NodeSubmodule, result1 == nil && result0 == node_ns(node_usesroot(iface(n))))
 // createFakeModule parses a generated stub module: it only allocates new objects.
 //@ func createFakeModule
